@@ -620,5 +620,6 @@ fn main() {
         }
     }
     drop(w);
+    remove_site_cache();
     sink.finish();
 }
